@@ -16,12 +16,64 @@ import reg_common as R
 NONSTRINGS = {"X": 42, "X0": b"", "X1": 0, "X2": (), "X3": None, "X4": b"n1", "X5": 0.0}
 
 
+class Falsy:
+    """an adapter / subscriber that is false without being None (an empty container-like component)"""
+
+    def __len__(self):
+        return 0
+
+
+FALSY_RESULTS = [0, (), "", 0.0, Falsy()]
+
+
+def oracle_call8(vid, obj_ids):
+    """What a registered value returns when called (mirrors Tie.C08.call8): None, a FALSY result that is not
+    None (all encoded as the number 0) or a number >= 1000."""
+    s = vid + sum(obj_ids)
+    if s % 3 == 0:
+        return None
+    if s % 5 == 1:
+        return FALSY_RESULTS[s % len(FALSY_RESULTS)]
+    return R.oracle_call(vid, obj_ids)
+
+
+class V8(R.V):
+    __slots__ = ()
+
+    def __call__(self, *objs):
+        ids = [self.world.obj_id(o) for o in objs]
+        self.world.calls.append((self.vid, ids))
+        return oracle_call8(self.vid, ids)
+
+
+def canon(a):
+    """an answer as a list of ints: the falsy results are 0; anything else that is not an int (a None among
+    subscribers' results ...) makes the whole answer [3, 1]"""
+    out = []
+    for x in a:
+        if type(x) is int:
+            out.append(x)
+        elif any(x is f for f in FALSY_RESULTS) or (type(x) in (tuple, str, float) and not x):
+            out.append(0)
+        else:
+            return [3, 1]
+    return out
+
+
 class World8(R.World):
     @staticmethod
     def name(n):
         if isinstance(n, str) and n in NONSTRINGS:
             return NONSTRINGS[n]
         return R.World.name(n)
+
+    def value(self, v):
+        if v is None:
+            return None
+        key = (v[0], v[1])
+        if key not in self.values:
+            self.values[key] = V8(v[0], v[1], self)
+        return self.values[key]
 
 
 WORLD_STEPS = ("classImplements", "classImplementsFirst", "classImplementsOnly")
@@ -51,8 +103,10 @@ def world_step(w, op):
 
 
 def snapshot(w, changed):
-    return {"specs": w.observed_specs(), "changed": changed,
-            "obj_provides": [w.spec_id(R.providedBy(o)) for o in w.objects]}
+    # the objects' declarations first: the one of a super proxy is rebuilt after a change of its class and
+    # enters the specification table here
+    provides = [w.spec_id(R.providedBy(o)) for o in w.objects]
+    return {"specs": w.observed_specs(), "changed": changed, "obj_provides": provides}
 
 
 def run_case(case):
@@ -71,7 +125,7 @@ def run_case(case):
             continue
         rop = resolve_op(w, op)
         a = R.run_ops(w, [rop])[0]
-        answers.append(a if all(type(x) is int for x in a) else [3, 1])   # e.g. a None among subscribers' results
+        answers.append(canon(a))
         ops_out.append(rop)
     phases.append(snapshot(w, changed))
     return {"phases": phases, "ops": ops_out, "answers": answers,
